@@ -106,6 +106,15 @@ public class BigNat {
         return new StringValue(sb.toString());
     }
 
+    // is the string an even-length string of hex digits (what binascii.unhexlify accepts)
+    public static Value IsHexString(Value s) {
+        String h = ((StringValue) s).getVal().toString();
+        if ((h.length() & 1) != 0) return BoolValue.ValFalse;
+        for (int i = 0; i < h.length(); i++)
+            if (Character.digit(h.charAt(i), 16) < 0 || h.charAt(i) > 127) return BoolValue.ValFalse;
+        return BoolValue.ValTrue;
+    }
+
     // ASCII codes of a TLA+ string (for info strings such as "SPAKE2 pw")
     public static Value StrToBytes(Value s) {
         String h = ((StringValue) s).getVal().toString();
